@@ -27,6 +27,8 @@ func runC20(c *Ctx) {
 	c.Rule("C20.O1", "E4", "every non-nil return of each Malloc(size) has length size: the last store to the returned slice is make([]byte,size) or x[:size]", 3)
 	c.Rule("C20.O2", "E2,E4", "inside mempool: no use / return / second release of a block after its release; Append and Realloc copy to offsets 0 and len(old)", 4)
 	c.Rule("C20.O3", "E4", "pooling Free: Put only behind cap>0 and the upper bound; MemPool.Malloc grows to size before [:size]; aligned class table indexed only within bounds; each class's New makes exactly the class size", 5)
+	c.Rule("C20.O6", "E8", "the aligned allocator files a released buffer under a size class only when its capacity is exactly a class size (a power of two within the class range): decided by evaluating Free's filter over every capacity from 0 to beyond the largest class; Malloc re-slices a pooled buffer up to its class size", 1)
+	c20AlignedFreeFilter(c)
 	c.Rule("C20.O5", "E4", "the aligned allocator never lets the runtime choose a capacity: builtin append on a handed-out buffer only behind cap-len >= len(more) (in place); growth goes through Malloc of a class size", 1)
 	c.Rule("C20.O4", "E5", "sync.Pool.Put only in Free; no allocator stores a buffer pointer or slice into a field, global or map", 2)
 
@@ -501,4 +503,58 @@ func isFreshOfSize(c *Ctx, ptr ssa.Value, fn *ssa.Function) bool {
 		return false
 	}
 	return isSizeLike(fn, call.Call.Args[len(call.Call.Args)-1])
+}
+
+// c20AlignedFreeFilter: O6.  alignedIndexes maps a size to the smallest class
+// that holds it, and Malloc(n) re-slices a buffer of class(n) to n.  A buffer
+// whose capacity is not itself a class size, filed under class(cap) >= cap, is
+// later handed out for a request larger than its capacity.
+func c20AlignedFreeFilter(c *Ctx) {
+	fn := c.Fn("C20.O6", "(*mempool.AlignedAllocator).Free")
+	if fn == nil {
+		return
+	}
+	key := fnKey(c.P, fn, "only class-size capacities are pooled")
+	d, err := eng.Decide(c.P, fn)
+	if err != nil {
+		c.Unres("C20.O6", key, err.Error())
+		return
+	}
+	var put ssa.Instruction
+	for _, cs := range c.P.CallsNamed(fn, "(*sync.Pool).Put") {
+		put = cs.In
+	}
+	if put == nil {
+		c.OK("C20.O6", key, c.FnPos(fn), "Free pools nothing")
+		return
+	}
+	f := d.Block[put.Block()]
+	leaves := d.Leaves(f)
+	if len(leaves) != 1 {
+		c.Unres("C20.O6", key, fmt.Sprintf("the filter depends on %v; expected only the buffer's capacity", sortedKeys(leaves)))
+		return
+	}
+	leaf := sortedKeys(leaves)[0]
+	min := c.pkgConstInt("mempool", "minAlignedBufferSize")
+	max := c.pkgConstInt("mempool", "maxAlignedBufferSize")
+	if min <= 0 || max < min {
+		c.Unres("C20.O6", key, "class range constants not resolved")
+		return
+	}
+	witness := ""
+	n := 0
+	for size := int64(0); size <= max+2*min; size++ {
+		n++
+		got, err := d.Eval(f, eng.Env{leaf: size})
+		if err != nil {
+			c.Unres("C20.O6", key, err.Error())
+			return
+		}
+		want := size >= min && size <= max && size&(size-1) == 0
+		if got && !want && witness == "" {
+			witness = fmt.Sprintf("a buffer of capacity %d is put into the pools although %d is not a class size: it is filed under the next larger class and a later Malloc of a size between %d and that class re-slices it beyond its capacity (panic), or hands out fewer bytes than the class promises", size, size, size+1)
+		}
+	}
+	c.ExhaustiveTbl["aligned Free filter"] = n
+	c.Cond(witness == "", "C20.O6", key, c.FnPos(fn), fmt.Sprintf("filter evaluated on %d capacities: pooled => power of two in [%d,%d]", n, min, max), witness)
 }
